@@ -82,6 +82,31 @@ def run(lines, out, args):
             def getter(self, e=int(cf[1:])):
                 raise boom(e)
             Ob = type("Ob", (), {"__conform__": property(getter)})
+        elif cf[0] == "p":
+            # what providedBy(obj) answers is not a specification object but a stand-in (a security proxy): asked whether it
+            # extends the interface, its answer's truth test raises.  That exception is the caller's
+            eid_ = int(cf[1:])
+
+            class Raiser:
+                def __bool__(self):
+                    raise boom(eid_)
+
+            class ProxySpec:
+                """stands in for a specification: callable (`spec(iface)`), and with an `_implied` that can be asked `in`"""
+                def __call__(self, iface):
+                    return Raiser()
+
+                def extends(self, iface, strict=True):      # (what makes providedBy() take it for a specification)
+                    return Raiser()
+
+                class _Implied:
+                    def __contains__(self, k):
+                        raise boom(eid_)
+
+                    def get(self, k, d=None):
+                        raise boom(eid_)
+                _implied = _Implied()
+            Ob = type("Ob", (), {"__providedBy__": ProxySpec()})
         elif cf[0] == "t":
             # the object is a TUPLE (an instance of a tuple subclass with 0, 1 or 2 items): it is the object, not an argument list
             Ob = None
